@@ -79,7 +79,7 @@ def _any_demotion(e):
     return False
 
 
-def check_expression(e, ty, int_env, stats, findings):
+def check_expression(e, ty, int_env, stats, findings, flt_env=tx.FLT_ENV):
     from tensora.ir._peephole import peephole_expression
 
     try:
@@ -94,7 +94,7 @@ def check_expression(e, ty, int_env, stats, findings):
     stats["expressions rewritten"] += 1
     f0 = tx.wrap("f", [tx.expr_statement(e, ty)])
     f1 = tx.wrap("f", [tx.expr_statement(opt, ty)])
-    for a0, v0 in tx.environments(tx.used_vars(e), int_env):
+    for a0, v0 in tx.environments(tx.used_vars(e), int_env, flt_env=flt_env):
         stats["expression evaluations"] += 1
         d = tx.compare_runs(f0, f1, a0, v0)
         if d == "original-unsafe":
@@ -160,6 +160,9 @@ def work_peephole(unit):
         for e, ty in tx.precedence_family(4) + tx.logic_family() + tx.literal_family():
             n += 1
             check_expression(e, ty, int_env, stats, findings)
+        for e, ty in tx.rounding_family():
+            n += 1
+            check_expression(e, ty, int_env, stats, findings, flt_env=tx.FLT_ENV + tx.FLT_ENV_INEXACT)
     elif what == "statements":
         pool = tx.simple_statements() + tx.compound_statements(unit.get("depth2", True))
         for s in pool[unit["part"] :: unit["parts"]]:
